@@ -14,6 +14,15 @@ var VerifHookToxicWaste func(t, alpha, beta, gamma, delta *fr.Element)
 // VerifHookProverRS, when set, is called by Prove with pointers to the sampled (r, s).
 var VerifHookProverRS func(r, s *fr.Element)
 
+// VerifHookPostSolve, when set, is called by Prove with the solved wire values.
+var VerifHookPostSolve func(wireValues []fr.Element)
+
+func verifPostSolve(wireValues []fr.Element) {
+	if VerifHookPostSolve != nil {
+		VerifHookPostSolve(wireValues)
+	}
+}
+
 func verifToxicWaste(tw *toxicWaste) {
 	if VerifHookToxicWaste != nil {
 		VerifHookToxicWaste(&tw.t, &tw.alpha, &tw.beta, &tw.gamma, &tw.delta)
